@@ -72,3 +72,38 @@ Example C04_example :
   let s := fst (do_move zt (rep_of_position zt initial_position) (enc (Normal 12 28 None))) in
   r_key s = scratch_key zt s /\ r_key s = position_key zt (r_board s) (r_side s) (r_castling s) (r_ep s) /\ get_key (r_key s) <> 0.
 Proof. vm_compute. repeat split; discriminate. Qed.
+
+(* ---- whole games, with no hypothesis about intermediate states ----
+   game_inv (Chess/ValidStep.v) is the part of valid_position that legal play preserves: both kings exactly once, the side that has just moved
+   not in check, no pawn on a back rank, castling rights and en-passant square consistent with the board (Chess/GameInv.v: game_inv_step).
+   Engine/GameRefine.v lifts the per-move theorems to every legal line from every legal position; the only side condition left is that the
+   8-bit half-move counter does not wrap (clock + number of moves < 255; FIDE-legal games stay below 150). *)
+From CV Require Import Chess.History Chess.HistoryKeys Chess.ValidStep Chess.GameInv Engine.KeyScratchInit Engine.HistoryRefine Engine.GameRefine.
+From Coq Require Import List ZArith.
+Import ListNotations.
+Local Open Scope Z_scope.
+Theorem C04_the_key_along_every_legal_game_is_the_function_of_the_position :
+  forall (zt : zobrist) (p0 : position) (ms : list move),
+    valid_position p0 = true -> legal_line p0 ms = true -> clock p0 + Z.of_nat (length ms) < 255 ->
+    let s := play_rep zt (rep_of_position zt p0) ms in
+    r_key s = KeyScratchMove.position_key zt (r_board s) (r_side s) (r_castling s) (r_ep s) /\ get_key (r_key s) = Kpos zt (play p0 ms).
+Proof.
+  intros zt p0 ms Hv Hl Hn s. destruct (valid_hyps p0 Hv) as [Hg [Hc Hf]].
+  destruct (game_refines zt p0 ms Hg Hc Hf Hl Hn) as [Ra [Ia [Hk _]]]. fold s in Ra, Ia, Hk. split; [exact Hk|].
+  destruct Ia as [K [_ [S [C _]]]]. rewrite (state_key zt s K S C), Ra. reflexivity.
+Qed.
+Print Assumptions C04_the_key_along_every_legal_game_is_the_function_of_the_position.
+
+Theorem C04_transpositions_of_legal_games_have_equal_keys :
+  forall (zt : zobrist) (p1 p2 : position) (ms1 ms2 : list move),
+    valid_position p1 = true -> legal_line p1 ms1 = true -> clock p1 + Z.of_nat (length ms1) < 255 ->
+    valid_position p2 = true -> legal_line p2 ms2 = true -> clock p2 + Z.of_nat (length ms2) < 255 ->
+    same_position (play p1 ms1) (play p2 ms2) = true ->
+    let a := play_rep zt (rep_of_position zt p1) ms1 in let b := play_rep zt (rep_of_position zt p2) ms2 in
+    get_key (r_key a) = get_key (r_key b) /\ k_pawn (r_key a) = k_pawn (r_key b).
+Proof.
+  intros zt p1 p2 ms1 ms2 V1 L1 N1 V2 L2 N2. destruct (valid_hyps p1 V1) as [G1 [C1 F1]]. destruct (valid_hyps p2 V2) as [G2 [C2 F2]].
+  exact (legal_transpositions_same_key zt p1 p2 ms1 ms2 G1 C1 F1 L1 N1 G2 C2 F2 L2 N2).
+Qed.
+Print Assumptions C04_transpositions_of_legal_games_have_equal_keys.
+
